@@ -128,6 +128,7 @@ UpdatePositionReply(W, id, input, output) ==
       sout == IF sw.side = "buy" THEN output ELSE -output
       oi == UpdateOI(W, v, IF id = 1 THEN input ELSE -input, t)
   IN IF ~W.eng.tmp.swap \/ ~W.eng.tmp.funds THEN Fail(W, "no_tmp")
+     ELSE IF ~MulOK(sw.upnl, sout) THEN Fail(W, "over")
      ELSE IF oi = FAIL THEN Fail(W, "cap")
      ELSE LET smargin == IF id = 1 THEN (sw.on * D) \div sw.lev ELSE 0
               mtv == IF id = 1 THEN sw.mtv + smargin ELSE sw.mtv
@@ -256,6 +257,7 @@ PartialClosePositionReply(W, input, output) ==
       np == [p EXCEPT !.size = p.size + sout, !.margin = rm.margin, !.notional = Abs(remn),
                       !.lupf = rm.cpf, !.blk = W.blk.h]
   IN IF ~W.eng.tmp.swap THEN Fail(W, "no_tmp")
+     ELSE IF ~MulOK(sw.upnl, sout) THEN Fail(W, "over")
      ELSE IF oi = FAIL THEN Fail(W, "cap")
      ELSE IF rm.bad # 0 THEN Fail(W, "bad_debt")
      ELSE Done([SetPos(W, v, t, np) EXCEPT !.eng.st.oi = oi, !.eng.tmp.swap = FALSE,
@@ -287,9 +289,8 @@ Liquidate(W0, sender, a) ==
                                                  !.eng.tmpd.swap = [vamm |-> v, trader |-> t, side |-> PosSide(p.size),
                                                                     margin |-> chunk, lev |-> 0, on |-> cn, pn |-> 0,
                                                                     upnl |-> q.pnl, mtv |-> 0, paid |-> FALSE]],
-                                       <<IF cn > p.notional
-                                         THEN SwapIn(v, DirSide(p.dir), p.notional, 0, TRUE, 7)
-                                         ELSE SwapOut(v, DirSide(p.dir), chunk, plimit, 7)>>)
+                                       \* F8 repaired: the slice is always traded as a swap_output
+                                       <<SwapOut(v, DirSide(p.dir), chunk, plimit, 7)>>)
                      ELSE Done([W EXCEPT !.eng.tmp.swap = TRUE,
                                          !.eng.tmpd.swap = [vamm |-> v, trader |-> t, side |-> DirSide(p.dir),
                                                             margin |-> Abs(p.size), lev |-> 0, on |-> p.notional,
@@ -361,7 +362,8 @@ PayFundingReply(W, v, frac) ==
       ncpf == Append(c, IF c = <<>> THEN frac ELSE frac + Last(c))
       pay == SDiv(W.vamm[v].st.total * frac, W.eng.cfg.D)
       W1 == [W EXCEPT !.eng.vmap[v].cpf = ncpf]
-  IN IF pay < 0 THEN Done(W1, <<FundWithdraw(W, -pay)>>)
+  IN IF ~MulOK(W.vamm[v].st.total, frac) THEN Fail(W, "over")
+     ELSE IF pay < 0 THEN Done(W1, <<FundWithdraw(W, -pay)>>)
      ELSE IF pay > 0 THEN Done(W1, <<Xfer(W, W.eng.cfg.ifund, Min(W.bal["engine"], pay))>>)
      ELSE Done(W1, <<>>)
 
